@@ -22,7 +22,7 @@ CMP = ("x", "fun", "jac", "nfev", "njev", "nit", "message", "status", "success",
 def floors(tier):
     return {"pairs_compared": 300, "evaluation_points_compared": 5000, "callback_states_compared": 1500, "scaler_argument_checks": 300,
             "target_runs": 100, "target_stops": 30, "packaged_scaler_pairs": 20, "finite_difference_pairs": 40,
-            "pairs_with_identity_update_function": 40, "__nontrivial__": 100}
+            "pairs_with_identity_update_function": 40, "pairs_from_a_start_beyond_unit_step_resolution": 20, "pairs_with_infinite_trial_values": 8, "__nontrivial__": 100}
 
 
 def cases(tier, seed):
@@ -45,6 +45,17 @@ def cases(tier, seed):
             # finite-difference gradients: with s a power of two the scaling commutes with the differencing bit for bit
             cfg["jac"] = gen.pick(rng, [None, "2-point", "3-point"])
             s = float(2.0 ** int(rng.integers(-9, 10)))
+        if i % 10 == 4:
+            # a start beyond the resolution of a unit step: the first trial point rounds back onto x0
+            ps = gen.rand_spec(rng, ("qp", "sphere", "quartic", "qp_softplus"), nmax=6, boxes=("none", "lower", "upper"), starts=("interior",))
+            ps["start_scale"] = float(gen.pick(rng, [1e17, 1e18, 1e20]))
+            cfg["jac"] = "callable"
+            s = float(np.exp(rng.uniform(np.log(1.5), np.log(1e3))))
+        elif i % 10 == 7:
+            # an objective that is +inf outside its domain (x > 0), reached by trial points
+            ps = gen.rand_spec(rng, ("log_barrier", "qp_inf_region", "qp_inf_region"), nmax=6, boxes=("none", "none", "upper"), starts=("interior",))
+            cfg["jac"] = "callable"
+            s = float(np.exp(rng.uniform(np.log(1e-3), np.log(0.3))))
         yield {"problem": ps, "cfg": cfg, "s": s, "target_frac": float(rng.uniform(0.1, 0.9)), "ufd_identity": bool(i % 5 == 0)}
 
 
@@ -162,8 +173,14 @@ def run(spec):
         out.count("pairs_with_identity_update_function")
     if cfg["jac"] != "callable":
         out.count("finite_difference_pairs")
+    if P.spec.get("start_scale"):
+        out.count("pairs_from_a_start_beyond_unit_step_resolution")
+    if P.spec["family"] in ("log_barrier", "qp_inf_region"):
+        out.count("pairs_on_domain_restricted_objective")
     A = probes.run_min(P, dict(cfg, scaler=scaler_cfg))
     A.cfg_mode = cfg["jac"]
+    if A.exc is None and any(k == "f" and not np.isfinite(v) for k, p, v in A.evals):
+        out.count("pairs_with_infinite_trial_values")
     B = probes.run_min(P, dict(cfg, explicit_scale=s))
     out.count("pairs_compared")
     tagsS = dict(tags, packaged=spec["s"] == "packaged")
